@@ -202,12 +202,21 @@ fn gen_node_pull(c: &mut Chooser, depth: usize, allow_take: bool) -> Node {
 
 /// Generate a case for operator `op` (one of ALL_OPS).
 pub fn gen_case(c: &mut Chooser, op: &str, prop: &str) -> CaseSpec {
-    gen_case_sized(c, op, prop, false)
+    // "merge+deep": the thorough tier's larger configurations (more members, longer scripts,
+    // longer schedules, deeper trees)
+    match op.strip_suffix("+deep") {
+        Some(base) => gen_case_full(c, base, prop, false, true),
+        None => gen_case_full(c, op, prop, false, false),
+    }
+}
+
+pub fn gen_case_sized(c: &mut Chooser, op: &str, prop: &str, small: bool) -> CaseSpec {
+    gen_case_full(c, op, prop, small, false)
 }
 
 /// `small`: tiny configurations for the schedule enumerator (at most 2 members / inners / sinks,
 /// scripts of at most 2 items, reaction tables of at most 3 entries, at most 5 driver steps)
-pub fn gen_case_sized(c: &mut Chooser, op: &str, prop: &str, small: bool) -> CaseSpec {
+pub fn gen_case_full(c: &mut Chooser, op: &str, prop: &str, small: bool, deep: bool) -> CaseSpec {
     let credit = prop == "C14";
     let indep = prop == "C13";
     let mut allow_late = false;
@@ -217,12 +226,12 @@ pub fn gen_case_sized(c: &mut Chooser, op: &str, prop: &str, small: bool) -> Cas
         "map" | "filter" | "scan" | "take" | "skip" => Topo::Unary(gen_unop(c, op)),
         "merge" => {
             allow_late = true;
-            Topo::Merge(if c.chance(1, 12) { 0 } else { 1 + c.choose(if small { 2 } else { 4 }) })
+            Topo::Merge(if c.chance(1, 12) { 0 } else { 1 + c.choose(if small { 2 } else if deep { 6 } else { 4 }) })
         },
-        "concat" => Topo::Concat(if c.chance(1, 12) { 0 } else { 1 + c.choose(if small { 2 } else { 4 }) }),
+        "concat" => Topo::Concat(if c.chance(1, 12) { 0 } else { 1 + c.choose(if small { 2 } else if deep { 6 } else { 4 }) }),
         "combine" => Topo::Combine(1 + c.choose(if small { 2 } else { 3 })),
         "flatten" if !small && c.chance(1, 8) => Topo::FlattenRepeat(2 + c.choose(3)),
-        "flatten" => Topo::Flatten(c.choose(if small { 3 } else { 5 })),
+        "flatten" => Topo::Flatten(c.choose(if small { 3 } else if deep { 8 } else { 5 })),
         "share" => {
             n_probes = 1 + c.choose(if small { 2 } else { 3 });
             Topo::Share(n_probes)
@@ -233,7 +242,7 @@ pub fn gen_case_sized(c: &mut Chooser, op: &str, prop: &str, small: bool) -> Cas
         },
         "from_iter" => Topo::FromIter([Some(0), Some(1), Some(2), Some(3), Some(6), None][c.choose(6)]),
         _ => {
-            let d = if small { 1 } else { 1 + c.choose(3) };
+            let d = if small { 1 } else if deep { 2 + c.choose(3) } else { 1 + c.choose(3) };
             if !small && !indep && !credit && c.chance(1, 4) {
                 // an operator that completes its sink by itself on top of the tree: whatever the
                 // subtree still sends after being disposed becomes visible at the sink
@@ -326,7 +335,7 @@ pub fn gen_case_sized(c: &mut Chooser, op: &str, prop: &str, small: bool) -> Cas
             s.late = false;
         }
         pspecs.push(s);
-        lens.push(c.choose(if small { 3 } else { 5 }));
+        lens.push(c.choose(if small { 3 } else if deep { 10 } else { 5 }));
     }
     if let Topo::Flatten(n) | Topo::FlattenRepeat(n) = &topo {
         lens[0] = *n;
@@ -370,7 +379,7 @@ pub fn gen_case_sized(c: &mut Chooser, op: &str, prop: &str, small: bool) -> Cas
         pspecs,
         lens,
         probe_specs,
-        max_steps: if small { 3 + c.choose(3) } else { 6 + c.choose(20) },
+        max_steps: if small { 3 + c.choose(3) } else if deep { 15 + c.choose(45) } else { 6 + c.choose(20) },
         drain: credit || c.chance(1, 2),
         credit_env: credit,
         weights: if credit { [8, 5, 4, 0, 0, 4] } else { [8, 5, 4, 1, 1, 4] },
